@@ -116,6 +116,28 @@ fn cachegrind_instructions(file: &str) -> Result<u64, String> {
     Err(format!("no instruction count in cachegrind output (exit {:?}): {}", out.status.code(), truncate(&err, 300)))
 }
 
+/// Deep inputs for the stack-depth part: valid texts whose *shape* (not size alone) would drive a recursive
+/// lexer / parser deep: long runs of token-less lines, very many statements, one huge line.
+pub const DEEP: [&str; 6] = ["blank-lines", "comment-lines", "many-macros", "many-pins", "one-huge-line", "beginext-many-words"];
+pub fn deep_text(family: &str, n: usize) -> String {
+    let mut s = String::from("VERSION 5.8 ;\n");
+    match family {
+        "blank-lines" => s.push_str(&"\n".repeat(n)),
+        "comment-lines" => {
+            for i in 0..n {
+                s.push_str(&format!("# commented-out line {i}\n"));
+            }
+        }
+        "many-macros" => return text("many-macros", n / 40),
+        "many-pins" => return text("many-pins", n / 40),
+        "one-huge-line" => return text("long-point-list", n / 40),
+        "beginext-many-words" => return text("beginext-words-on-many-lines", n / 40),
+        _ => panic!("MACHINERY: unknown deep family {family}"),
+    }
+    s.push_str("MACRO after\n  SIZE 1 BY 2 ;\nEND after\nEND LIBRARY\n");
+    s
+}
+
 pub struct C11Lin;
 
 impl C11Lin {
@@ -183,6 +205,61 @@ impl C11Lin {
     }
 }
 
+impl C11Lin {
+    /// stack-depth part: the stand-alone reader built in cargo's default dev profile (no inlining / tail-call
+    /// elimination) reads each deep text under the 8 MiB stack limit; it must exit normally.
+    fn deep(&self, family: &str, cx: &mut Cx) {
+        let key = format!("deep:{family}");
+        if !cx.enter(&key) {
+            return;
+        }
+        let Ok(bin) = std::env::var("L21_DEBUG_BIN") else {
+            cx.cap("debug-binary-unavailable");
+            return;
+        };
+        if !std::path::Path::new(&bin).exists() {
+            cx.cap("debug-binary-unavailable");
+            return;
+        }
+        let n = cx.tier.pick(100_000, 400_000);
+        let t = deep_text(family, n);
+        let file = cx.scratch_file(&format!("deep-{family}.lef"));
+        if let Err(e) = std::fs::write(&file, &t) {
+            cx.machinery(format!("cannot write {file}: {e}"));
+            return;
+        }
+        cx.stats.executions += 1;
+        cx.stats.transitions += 1;
+        cx.stats.evaluations += 1;
+        cx.state(hash_bytes(t.as_bytes()), true);
+        use std::os::unix::process::{CommandExt, ExitStatusExt};
+        let mut cmd = std::process::Command::new(&bin);
+        cmd.args(["lefread", &file]).stdin(std::process::Stdio::null()).stdout(std::process::Stdio::null()).stderr(std::process::Stdio::null());
+        unsafe {
+            cmd.pre_exec(crate::sandbox::set_limits);
+        }
+        let status = cmd.status();
+        let _ = std::fs::remove_file(&file);
+        match status {
+            Err(e) => cx.machinery(format!("cannot run {bin}: {e}")),
+            Ok(st) if st.success() => {
+                cx.outcome("deep-read-returned");
+                cx.tag("part:deep");
+            }
+            Ok(st) => {
+                cx.outcome("deep-read-crashed");
+                cx.fail(
+                    &key,
+                    "deep-input-crash",
+                    None,
+                    || format!("the reader built in the default dev profile died (signal {:?}, code {:?}) on the valid text of family {family} ({} lines / {} bytes) under an 8 MiB stack", st.signal(), st.code(), t.lines().count(), t.len()),
+                    || json!({"family": family, "lines": t.lines().count(), "bytes": t.len()}),
+                );
+            }
+        }
+    }
+}
+
 impl Driver for C11Lin {
     fn id(&self) -> &'static str {
         "C11"
@@ -191,8 +268,8 @@ impl Driver for C11Lin {
         let s = sizes(tier);
         Describe {
             rule: format!(
-                "linear-time evidence: for the text families {FAMILIES:?} at {} / {} / {} KiB the stand-alone reader (`l21mc lefread`) runs under `valgrind --tool=cachegrind --cache-sim=no`; the deterministic instruction counts must satisfy I(4N)-I(2N) <= 3 x (I(2N)-I(N)) (linear => 2, quadratic => 4; differences below 10 % of I(N) count as noise); counts echoed under alphabet_use as instructions:<family>:<size>. Each text also passes the in-process no-panic oracle.",
-                s[0], s[1], s[2]
+                "linear-time evidence: for the text families {FAMILIES:?} at {} / {} / {} KiB the stand-alone reader (`l21mc lefread`) runs under `valgrind --tool=cachegrind --cache-sim=no`; the deterministic instruction counts must satisfy I(4N)-I(2N) <= 3 x (I(2N)-I(N)) (linear => 2, quadratic => 4; differences below 10 % of I(N) count as noise); counts echoed under alphabet_use as instructions:<family>:<size>. Each text also passes the in-process no-panic oracle. Stack depth: six deep-shaped valid texts ({} lines / statements: blank lines, comment lines, many macros, many pins, one huge line, BEGINEXT words) are read by the same stand-alone reader built in cargo's default dev profile under an 8 MiB stack; it must exit normally (the optimised harness build can hide recursion that the profile users test with does not).",
+                s[0], s[1], s[2], tier.pick(100_000, 400_000)
             ),
             assumptions: vec!["time proportional to the input length is decided as 'terminates under the watchdog on every explored input' plus this bounded instruction-count test on seven shape families; evidence of linear behaviour on those families up to that size, not a complexity proof. If valgrind cannot be run the part is skipped and reported as cap 'cachegrind-unavailable'".into()],
             excluded: vec![],
@@ -200,12 +277,18 @@ impl Driver for C11Lin {
         }
     }
     fn units(&self, _tier: Tier) -> Vec<String> {
-        FAMILIES.iter().map(|f| f.to_string()).collect()
+        FAMILIES.iter().map(|f| f.to_string()).chain(DEEP.iter().map(|f| format!("deep:{f}"))).collect()
     }
     fn run_unit(&self, unit: &str, cx: &mut Cx) {
+        if let Some(f) = unit.strip_prefix("deep:") {
+            return self.deep(f, cx);
+        }
         self.family(unit, cx);
     }
     fn run_case(&self, key: &str, cx: &mut Cx) {
+        if let Some(f) = key.strip_prefix("deep:") {
+            return self.deep(f, cx);
+        }
         let f = key.strip_prefix("lin:").unwrap_or(key);
         let f = f.split(':').next().unwrap_or(f);
         self.family(f, cx);
@@ -214,6 +297,9 @@ impl Driver for C11Lin {
         json!({"family": key, "sizes_kib": sizes(tier)})
     }
     fn guards(&self, _tier: Tier, stats: &Stats, _d: u64) -> Result<(), String> {
+        if !stats.caps_hit.contains("debug-binary-unavailable") {
+            require_tags(stats, &["part:deep"])?;
+        }
         if stats.caps_hit.contains("cachegrind-unavailable") {
             return Ok(());
         }
